@@ -1,4 +1,5 @@
 \* quick: two-step writes under the per-message mutex; <= 3 frames
+\* measured: 19 430 distinct / 37 641 generated states, depth 33
 CONSTANTS
   FrameAlphabet <- FramesMutex
   MaxFrames = 3
